@@ -271,6 +271,10 @@ def selftests():
 def main(tier, seed):
     run = Run(PID, tier, seed, "other")
     progs = corpus()
+    rng = random.Random(seed)
+    nrand = 40 if tier == "quick" else 400
+    for i in range(nrand):
+        progs.append(fcorpus.random_prog(rng, i))
     K, max_paths = (3, 80) if tier == "quick" else (4, 300)
     for part in pmap("vf.checks.c12", "work", [{"progs": [p], "K": K, "max_paths": max_paths} for p in progs]):
         run.absorb(part)
